@@ -33,6 +33,7 @@
 import CelloProofs.Lemmas.Thr
 import CelloProofs.Lemmas.ThrCounter
 import CelloProofs.Lemmas.ThrArgs
+import CelloProofs.Lemmas.ThrSync
 import CelloProofs.Props.C07
 import CelloGen.Exn
 import CelloGen.Thr
@@ -841,6 +842,167 @@ example :
     localOuts 1 (run cfgNow s G.init).2 = (solo cfgNow 1 (proj 1 (run cfgNow s G.init).2) [] TS.unborn).2 ∧
     cfgNow.joinIgnoresDeadlk = false ∧
     running (run cfgNow (s.take 4) G.init).1 1 = true ∧ wrapperGone (run cfgNow (s.take 4) G.init).1 1 = false := by decide
+
+
+/-! ### extension round: the synchronisation wrappers as extracted translation ∘ pthread primitive -/
+
+
+/-- the translation tables of the four synchronisation wrappers as the translator reads them from /repo now -/
+def tabsSrc : SyncTabs :=
+  { lock := CelloGen.Thr.lockErr, trylock := CelloGen.Thr.trylockErr, tryDefault := CelloGen.Thr.trylockDefault,
+    unlock := CelloGen.Thr.unlockErr, join := CelloGen.Thr.joinErr }
+
+/-- the tables of the source before commit 484991f (`Thread_Join` without the EDEADLK case) -/
+def tabsOldJoin : SyncTabs := { tabsSrc with join := [("EINVAL", "ValueError"), ("ESRCH", "ValueError")] }
+
+/-- the tables of the current source agree with the model on every return value the primitives produce -/
+theorem C13_sync_tables_current_source (scan : Nat × Nat → Bool) : TabsAgree (cfgSrc scan) tabsSrc := by
+  refine ⟨by decide, by decide, by decide, by decide, by decide, ?_⟩
+  have : joinTrOf (cfgSrc scan) .edeadlk = some .resourceError := by
+    simp [joinTrOf, (C13_join_repair_in_current_source.2 scan), joinTr]
+  rw [this]; decide
+
+/-- **The synchronisation events of the model are the extracted translation applied to the primitive's return value
+    (current source).**  For `lock`, `trylock`, `unlock` and `join` — in every state, for every thread — the step of the
+    holder / phase machine all C13 theorems are about is: test `t->thread` (join), call the primitive once (`pmLock`,
+    `pmTrylock`, `pmUnlock`, `pJoin`), look its return value up in the table the translator extracted from `Mutex_Lock` /
+    `Mutex_Trylock` / `Mutex_Unlock` / `Thread_Join`, raise what the table says or return; the Mutex changes hands only when
+    the primitive returned 0.  An edit of a table entry that matters (EBUSY of trylock no longer `false`, success raising,
+    the EDEADLK case of join) breaks `C13_sync_tables_current_source`. -/
+theorem C13_sync_step_is_translated_primitive (scan : Nat × Nat → Bool) (g : G) (e : Ev) (r : G × Out)
+    (hs : syncStep tabsSrc g e = some r) : step (cfgSrc scan) g e = r :=
+  syncStep_eq_step _ _ (C13_sync_tables_current_source scan) g e r hs
+
+/-- the same composition with the table of `Thread_Join` before commit 484991f is the OLD variant of the model: the
+    `early` return of a self-join is "the table has no entry for the EDEADLK `pthread_join` reported" -/
+theorem C13_sync_step_old_join_variant (g : G) (e : Ev) (r : G × Out) (hs : syncStep tabsOldJoin g e = some r) :
+    step cfgOldJoin g e = r :=
+  syncStep_eq_step cfgOldJoin tabsOldJoin ⟨by decide, by decide, by decide, by decide, by decide, by decide⟩ g e r hs
+
+/-- `syncStep` is defined exactly on the four synchronisation events -/
+theorem C13_sync_step_domain (tabs : SyncTabs) (g : G) (e : Ev) :
+    (syncStep tabs g e).isSome = true ↔ (∃ t m, e = .lock t m) ∨ (∃ t m, e = .trylock t m) ∨ (∃ t m, e = .unlock t m) ∨ (∃ t u, e = .join t u) := by
+  cases e <;> simp [syncStep]
+
+/-- **`Mutex_Trylock`, every error code** (about the table and the final `return` extracted from the source): it returns
+    `false` iff `pthread_mutex_trylock` returned EBUSY, raises (ValueError) iff it returned EINVAL, and returns `true` for
+    every other return value — 0, and also any other error code. -/
+theorem C13_trylock_translation (e : Errno) :
+    (tryTable CelloGen.Thr.trylockErr CelloGen.Thr.trylockDefault e = .val false ↔ e = .ebusy) ∧
+    (tryTable CelloGen.Thr.trylockErr CelloGen.Thr.trylockDefault e = .val true ↔ e ≠ .ebusy ∧ e ≠ .einval) ∧
+    (∀ x, tryTable CelloGen.Thr.trylockErr CelloGen.Thr.trylockDefault e = .raises x ↔ e = .einval ∧ x = .valueError) ∧
+    tryTable CelloGen.Thr.trylockErr CelloGen.Thr.trylockDefault e ≠ .malformed := by
+  cases e <;> exact ⟨by decide, by decide, fun x => by cases x <;> decide, by decide⟩
+
+/-- the full statement "trylock returns true only if the primitive succeeded", over every error code -/
+def C13_trylock_true_only_on_success_statement : Prop :=
+  ∀ e, tryTable CelloGen.Thr.trylockErr CelloGen.Thr.trylockDefault e = .val true → e = .zero
+
+/-- … does not hold of the table: an error code `Mutex_Trylock` has no case for (EAGAIN: the recursion limit of a recursive
+    mutex; also EDEADLK, EPERM, ESRCH) falls through to `return true`.  Not reachable through the library: `Mutex_New` makes
+    default-kind mutexes (`pthread_mutex_init(&m->mutex, NULL)`), whose trylock returns 0 or EBUSY only — see `_partial`. -/
+theorem C13_trylock_true_only_on_success_refuted : ¬ C13_trylock_true_only_on_success_statement := by
+  intro h
+  have := h .eagain (by decide)
+  cases this
+
+/-- **trylock returns true iff the primitive returned 0, false iff EBUSY** — for every return value of the primitive of a
+    default-kind mutex (`pmTrylock`: 0 or EBUSY), which is what `Mutex_New` creates -/
+theorem C13_trylock_true_only_on_success_partial (h : Option Tid) (e : Errno) (hp : pmTrylock h = .ret e) :
+    (tryTable CelloGen.Thr.trylockErr CelloGen.Thr.trylockDefault e = .val true ↔ e = .zero) ∧
+    (tryTable CelloGen.Thr.trylockErr CelloGen.Thr.trylockDefault e = .val false ↔ e = .ebusy) := by
+  cases h <;> simp only [pmTrylock, Prim.ret.injEq] at hp <;> subst hp <;> decide
+
+/-- **trylock in the machine**: a running thread's `trylock m` yields `true` iff the primitive returned 0 — and then the
+    caller is the holder —, `false` iff it returned EBUSY — and then nothing at all changes —, and never raises -/
+theorem C13_trylock_true_iff_primitive_succeeded (scan : Nat × Nat → Bool) (g : G) (t : Tid) (m : Nat) (hr : running g t = true) :
+    ((step (cfgSrc scan) g (.trylock t m)).2 = .tried true ↔ pmTrylock (g.holder m) = .ret .zero) ∧
+    ((step (cfgSrc scan) g (.trylock t m)).2 = .tried false ↔ pmTrylock (g.holder m) = .ret .ebusy) ∧
+    (∀ x, (step (cfgSrc scan) g (.trylock t m)).2 ≠ .raised x) ∧
+    (pmTrylock (g.holder m) = .ret .zero → (step (cfgSrc scan) g (.trylock t m)).1.holder m = some t) ∧
+    (pmTrylock (g.holder m) = .ret .ebusy → (step (cfgSrc scan) g (.trylock t m)).1 = g) := by
+  cases hh : g.holder m <;> simp [step, hr, pmTrylock, hh, upd]
+
+/-- **the join protocol, for every state of the flags** (`t->thread` zero or not, the target never called / called and
+    running / finished / finished and joined, the target being the caller): `join u` by a running thread `t` on a Thread
+    object that still exists
+    * returns without calling the primitive (`nothread`) iff `t->thread` is 0 (the object was never called);
+    * returns normally after the primitive (`joined`) iff `t->thread ≠ 0` and `pthread_join` returned 0 — which it does
+      only when `u` has finished `Thread_Init_Run`, has not been joined before and is not the caller;
+    * raises ResourceError iff the caller is the target; never returns although `pthread_join` failed (`early`);
+    * does not return (`blocked`) iff the target is another thread that is still live. -/
+theorem C13_join_protocol (scan : Nat × Nat → Bool) (g : G) (t u : Tid) (hr : running g t = true) (hw : wrapperGone g u = false) :
+    ((step (cfgSrc scan) g (.join t u)).2 = .nothread ↔ threadField g u = false) ∧
+    ((step (cfgSrc scan) g (.join t u)).2 = .joined ↔
+       threadField g u = true ∧ pJoin t u (g.thr u).phase (g.joined u) = .ret .zero) ∧
+    (pJoin t u (g.thr u).phase (g.joined u) = .ret .zero ↔ (g.thr u).phase = .done ∧ g.joined u = false ∧ t ≠ u) ∧
+    ((step (cfgSrc scan) g (.join t u)).2 = .raised .resourceError ↔ t = u) ∧
+    (step (cfgSrc scan) g (.join t u)).2 ≠ .early ∧
+    ((step (cfgSrc scan) g (.join t u)).2 = .blocked ↔ t ≠ u ∧ isLive (g.thr u).phase = true) := by
+  have hx : joinTrOf (cfgSrc scan) .edeadlk = some .resourceError := by
+    simp [joinTrOf, (C13_join_repair_in_current_source.2 scan), joinTr]
+  by_cases htu : t = u
+  · subst htu
+    have hph : (g.thr t).phase = .running := by simpa [running] using hr
+    simp [step, hr, hw, hx, threadField, pJoin, hph]
+  · cases hp : (g.thr u).phase <;> cases hj : g.joined u <;> simp [step, hr, hw, htu, threadField, pJoin, hp, hj, isLive]
+
+/-- the order of flag test, primitive call and error tests inside the wrappers, and the life cycle of the flags, as the
+    translator reads them from the source: `Thread_Join` and `Thread_Stop` test `t->thread` first and call their primitive
+    once, on `t->thread`, before any test of `err`; the Mutex wrappers call their primitive once on the object's own
+    `pthread_mutex_t` before any test of `err` and before any `return`; `is_running` is set by the prologue of
+    `Thread_Init_Run` and **not cleared by its epilogue** (`running(x)` stays true after the function has returned and
+    after `join`); `Thread_Call` copies the argument tuple before `pthread_create` -/
+theorem C13_wrapper_order_current_source :
+    CelloGen.Thr.joinGuardsThread = true ∧ CelloGen.Thr.stopGuardsThread = true ∧ CelloGen.Thr.lockCallsPrimFirst = true ∧
+    CelloGen.Thr.trylockCallsPrimFirst = true ∧ CelloGen.Thr.unlockCallsPrimFirst = true ∧
+    CelloGen.Thr.prologueSetsRunning = true ∧ CelloGen.Thr.epilogueClearsRunning = false ∧
+    CelloGen.Thr.callCopiesArgsFirst = true := by decide
+
+/-- `Thread_Stop` (pthread_kill) and `Thread_Call` (pthread_create): the model's translation is the table extracted from
+    the current source, for every error code -/
+theorem C13_stop_create_translation_current_source (e : Errno) :
+    stopTr e = trTable CelloGen.Thr.stopErr e ∧ createTr e = trTable CelloGen.Thr.createErr e := by
+  cases e <;> exact ⟨by decide, by decide⟩
+
+/-- **a failing `Thread_Call` / `Thread_Stop` is local to the caller**: when `pthread_create` (`pthread_kill`) reports `e`,
+    the outcome is the exception the extracted table names (or a normal return), the caller's exception record takes it,
+    and nothing else of the caller's component — collector, thread-local table, ledger, phase — changes; no other
+    thread's component is touched (`C13_frame`) and no thread comes into being (the phase of every thread is as before) -/
+theorem C13_create_stop_failure_is_local (cfg : Cfg) (g : G) (t : Tid) (e : Errno) (f : PFn) (hf : f = .create ∨ f = .stop)
+    (hr : (g.thr t).phase = .running) :
+    (step cfg g (.loc t (.perr f e))).2 =
+      (match trTable (if f = .create then CelloGen.Thr.createErr else CelloGen.Thr.stopErr) e with
+       | some x => .raised x | none => .ok) ∧
+    (∀ u, ((step cfg g (.loc t (.perr f e))).1.thr u).phase = (g.thr u).phase) ∧
+    (∀ u, u ≠ t → (step cfg g (.loc t (.perr f e))).1.thr u = g.thr u) ∧
+    ((step cfg g (.loc t (.perr f e))).1.thr t).gc = (g.thr t).gc ∧
+    ((step cfg g (.loc t (.perr f e))).1.thr t).tls = (g.thr t).tls ∧
+    ((step cfg g (.loc t (.perr f e))).1.thr t).fin = (g.thr t).fin := by
+  have hk : wrapperKilled g t (lstep cfg t g.cache (foreignMarks cfg g t (.perr f e)) (.perr f e) (g.thr t)).1 = false :=
+    wrapperKilled_gc g t _ (by rcases hf with rfl | rfl <;> simp only [lstep, lrun, hr, if_true] <;> split <;> rfl)
+  rw [step_loc, hk]
+  rcases hf with rfl | rfl <;> cases e <;>
+    simp [lstep, lrun, hr, createTr, stopTr, upd, trTable, Errno.cname, excNamed, CelloGen.Thr.createErr, CelloGen.Thr.stopErr, List.lookup] <;>
+    (refine ⟨fun u => ?_, fun u hu hut => absurd hut hu⟩; by_cases hu : u = t <;> simp [hu, hr])
+
+/-! non-vacuity of the composition: a contended schedule, executed by `syncStep` -/
+example :
+    (syncStep tabsSrc G.init (.trylock 0 3)).map (·.2) = some (.tried true) ∧
+    (syncStep tabsSrc (run cfgNow [.lock 0 3] G.init).1 (.trylock 0 3)).map (·.2) = some (.tried false) ∧
+    (syncStep tabsSrc (run cfgNow [.lock 0 3] G.init).1 (.lock 0 3)).map (·.2) = some .blocked ∧
+    (syncStep tabsSrc G.init (.unlock 0 3)).map (·.2) = some .ub ∧
+    (syncStep tabsSrc G.init (.join 0 1)).map (·.2) = some .nothread ∧
+    (syncStep tabsSrc G.init (.join 0 0)).map (·.2) = some (.raised .resourceError) ∧
+    (syncStep tabsOldJoin G.init (.join 0 0)).map (·.2) = some .early ∧
+    (syncStep tabsSrc (run cfgNow [.spawn 0 1] G.init).1 (.join 0 1)).map (·.2) = some .blocked ∧
+    (syncStep tabsSrc (run cfgNow [.spawn 0 1, .loc 1 .begin_, .loc 1 .end_] G.init).1 (.join 0 1)).map (·.2) = some .joined ∧
+    (syncStep tabsSrc (run cfgNow [.spawn 0 1, .loc 1 .begin_, .loc 1 .end_, .join 0 1] G.init).1 (.join 0 1)).map (·.2) = some .ub := by
+  decide
+
+example : (run cfgNow [.loc 0 (.perr .create .eagain), .loc 0 (.perr .create .eperm), .loc 0 (.perr .stop .esrch), .loc 0 (.perr .stop .zero)] G.init).2.map (·.2)
+    = [.raised .outOfMemoryError, .ok, .raised .valueError, .ok] := by decide
+
 
 /-
   PARTIAL — what these theorems do not say (and the harness covers by running real threads under schedule noise):
